@@ -263,7 +263,8 @@ def check(run, project, L, rule="G"):
         c = cl.get(cname)
         if c is None:
             raise AnalysisError(f"model guard G7: class {cname} not found")
-        val = [s.value for s in c.body if isinstance(s, ast.Assign) and is_name(s.targets[0], "_signed")]
+        val = [s.value for s in c.body if isinstance(s, ast.Assign) and is_name(s.targets[0], "_signed")] + \
+            [s.value for s in c.body if isinstance(s, ast.AnnAssign) and s.value is not None and is_name(s.target, "_signed")]
         ok = len(val) == 1 and isinstance(val[0], ast.Constant) and val[0].value is want
         run.ob(rule, ok, f"G7 {cname}._signed is {want}",
                f"{cname}._signed = {norm(val[0]) if val else 'missing'}: the signedness every primitive inherits changed",
